@@ -39,6 +39,11 @@ def run(tier):
     r = fragcheck.frag_model(wd, "frag-code", 4096, arith, 64, lens, [0, 1, 64, 65], 2, export=False)
     expect(res, "Frag as implemented holds", r.ok and not r.violation, str(r.violation or r.error))
 
+    ok, note = fragcheck.apalache_inductive(wd, arith)
+    expect(res, "Apalache discharges the inductive invariant of FragInd.tla", ok, note)
+    ok, note = fragcheck.apalache_inductive(wd, arith, mutate=True)
+    expect(res, "Apalache rejects FragInd.tla with the receiver's window made too small", not ok, note)
+
     msgs, plan = [[2, 1], [3]], ["try", "recv", "timeout", "recv", "recv"]
     for kw, what in ((dict(follow_on_shared=True), "FollowOnShared"), (dict(restore=False), "RestoreBlocking=FALSE"),
                      (dict(crashers=(2,), incomplete="disc"), "IncompleteIs=disc")):
@@ -76,6 +81,10 @@ def run(tier):
                 "INVARIANTS InOrderOnce EndAfterLast WakesPoller\nPROPERTIES Completes\n")
     r = run_tlc(os.path.join(wd, mod + ".tla"), cfg, cwd=wd)
     expect(res, "AsyncRouter variant WakeFirst violates Completes", r.violation is not None, str(r.violation))
+
+    for variant in ("close_each_drop", "no_cascade"):
+        r = chancheck.unix_handles(wd, "st-" + variant, chans=2, procs=2, maxops=5, variant=variant)
+        expect(res, "UnixHandles variant %s violates an agreement invariant" % variant, r.violation is not None, str(r.violation))
 
     # ---- 2. binding: corrupt recorded traces
     rnd = random.Random(7)
